@@ -299,6 +299,10 @@ pub fn renumber_targets() -> Vec<U> {
         U::from_u64(77),
         U::pow2(128).add(U::from_u64(5)),
         U::pow2(255),
+        // constants whose bytes read as text (a space, and "vault.stakes" padded with zeros): the proxy-slot pass
+        // looks at the byte pattern of hashed constants
+        U::pow2(253),
+        U::from_be_slice(b"vault.stakes\0\0\0\0\0\0\0\0\0\0\0\0\0\0\0\0\0\0\0\0"),
     ]
 }
 
@@ -387,6 +391,13 @@ impl Check for C11 {
                         if i == j {
                             continue;
                         }
+                        // documented special case: a hash over constants only whose slot constant reads as text is a
+                        // named proxy slot and is folded to a constant, so such fragments are not moved to text-like slots
+                        let text_like = |k: usize| k >= 6;
+                        let all_constant_hash = |f: &Frag| matches!(f, Frag::Evidence(11 | 12 | 13));
+                        if (text_like(i) && all_constant_hash(a)) || (text_like(j) && all_constant_hash(b)) {
+                            continue;
+                        }
                         let from = (U::from_u64(3), U::from_u64(4));
                         let desc = json!({"a": format!("{a:?}"), "b": format!("{b:?}"), "from": [from.0.hex_min(), from.1.hex_min()], "to": [t1.hex_min(), t2.hex_min()], "ia": chunk, "ib": bi, "mode": "renumbering"});
                         ctx.case(|| desc.clone());
@@ -410,8 +421,8 @@ impl Check for C11 {
              one-byte flag, length / call target, timestamp + selector-sized field, a path aborted by a jump to an invalid constant target or by INVALID with a \
              loaded value still on the stack, an internal setter that stores the word it finds on the stack, two reads of a field at the top of the slot that is masked again with a wider mask, a mapping element with a small constant key, a nested mapping with a constant outer key, a dynamic array at constant indices), each composition in strict and in permissive error mode. ALL ordered pairs (A, B) x 3 dispatcher shapes \
              (selector compare, reversed layout, two chained conditional jumps) x 2 slot assignments: layout(D(A,B)) must equal \
-             layout(D(A)) u layout(D(B)) as entry sets, and layout(D(A)) must only have entries at A's slot. Renumbering: two-fragment programs x all 30 injective maps of their slots \
-             into {{0, 1, 2, 77, 2^128+5, 2^255}} (changes PUSH widths, so programs are re-assembled): layout(rho(P)) = rho(layout(P)). \
+             layout(D(A)) u layout(D(B)) as entry sets, and layout(D(A)) must only have entries at A's slot. Renumbering: two-fragment programs x all 56 injective maps of their slots \
+             into {{0, 1, 2, 77, 2^128+5, 2^255, 2^253, bytes32(\"vault.stakes\")}} (changes PUSH widths, so programs are re-assembled): layout(rho(P)) = rho(layout(P)). \
              non-trivial = every comparison that produced layouts; distinct by (fragments, slots, dispatcher)",
             if tier.thorough() { 4 } else { 2 },
             if tier.thorough() { ", 12 further mapping kinds" } else { "" }
@@ -421,7 +432,7 @@ impl Check for C11 {
     fn assumptions(&self, _tier: Tier) -> Vec<String> {
         vec![
             "entries are compared by (slot, offset, type) with conflict payloads erased".into(),
-            "slot constants never coincide with keccak(n), n < 10000, or with string-like constants (documented special cases)".into(),
+            "slot constants never coincide with keccak(n), n < 10000; constants that read as text are used as renumbering targets except for fragments whose hash is over constants only (the documented named-proxy-slot case)".into(),
         ]
     }
     fn replay(&self, replay: &Value) -> bool {
